@@ -38,6 +38,19 @@ CHECKS = {
                      "sanitizer report and a refusal must name a line inside the document.",
                 note="trusted: ASan/UBSan/timeouts as observers of memory safety and termination; expat for well-formedness errors; attribute-level "
                      "and literal-level grammar, chunked delivery and the g3 / results parsers are in the thorough tier only as far as implemented", ref="8/C11"),
+    "C06": dict(cat="exploration", technique="TLC-generated survey sessions (SurveySession.tla) replayed on gama-local; truth law adjusted = generating coordinates",
+                text="SurveySession.tla builds networks from templates in which every unknown point is determined by construction, in every axes/angle "
+                     "convention and circle orientation, and emits sessions with the edits OmitApprox, PerturbApprox, AttachHeights, AddConsistentObs, "
+                     "SetAlgorithm, Translate. Observation values are computed from the true lattice coordinates; after every step gama-local must "
+                     "return the generating coordinates (2e-6 m) with zero residuals and must not drop points.",
+                note="trusted: textbook observation formulas in tools/session.py; completeness of approximate-coordinate strategies is claimed only "
+                     "for the template geometries (polar, intersection, trilateration, traverse, levelling, vectors)", ref="8/C06"),
+    "C07": dict(cat="exploration", technique="TLC-generated edit sessions replayed on gama-local; per-edit laws checked on results projected to the physical frame",
+                text="Noisy networks of SurveySession.tla are re-expressed by Translate, RotateCircle, Permute, Rename (incl. non-ASCII), SwitchUnits, "
+                     "SwapEnds and MirrorAxes (8 axes x 2 angle senses), one edit exhaustively (thinned) and random 4-edit sessions (TLC -simulate). "
+                     "Results are projected back into the physical east-north-up frame (coordinates, covariances, ellipses, adjusted observations, "
+                     "orientation unknowns, statistics) and must satisfy the law of the edit.",
+                note="trusted: projection code; tolerances 3e-6 m, 3e-7 gon, 5e-5 relative (printed precision, iteration threshold)", ref="8/C07"),
 }
 
 NOT_APPLICABLE = []
